@@ -61,7 +61,30 @@ type Spec struct {
 	Outs  []int  `json:"outs"`
 	Aware []bool `json:"aware"`
 	Order []int  `json:"order"`
+	// parent-cancellation runs (generator C17P): Events replaces Order when non-nil; an entry >= 0
+	// releases that member, -1 cancels the parent context.  Pre: the parent context is already
+	// cancelled when the call is made.  In these runs a cancellation-aware member that saw its
+	// context cancelled waits for a second gate, which the driver opens in index order, so that the
+	// order in which simultaneously cancelled members return is fixed.
+	Events []int `json:"events,omitempty"`
+	Pre    bool  `json:"pre,omitempty"`
+	// scripted responses (cases KSeq): member i returns (message code, error code) Script[i]:
+	// message 0 = nil, error 0 = nil, error 500/501 = one of two error values shared by members,
+	// error 600+i+1 = isErr{i} (errors.Is-equal to every other isErr), error i+1 = memberErr{i}; any other message code = an Int64Value holding it.
+	Script [][2]int64 `json:"script,omitempty"`
 }
+
+// isErr: equal-but-distinct errors — every *isErr matches every other under errors.Is, like two
+// gRPC status errors with the same code and text coming from two members.
+type isErr struct{ i int }
+
+func (e *isErr) Error() string        { return "unavailable" }
+func (e *isErr) Is(target error) bool { _, ok := target.(*isErr); return ok }
+
+var (
+	sharedErrA = errors.New("shared failure A")
+	sharedErrB = errors.New("shared failure B")
+)
 
 // Obs is what was observed, canonicalised to small integers.
 type Obs struct {
@@ -77,6 +100,10 @@ type Obs struct {
 	Leak    int64   `json:"leak"`
 	Panic   string  `json:"panic,omitempty"`
 	Stacks  string  `json:"stacks,omitempty"`
+	// a member was handed a context with a deadline although the caller's context has none
+	Deadline bool `json:"deadline,omitempty"`
+	// the slice returned by the previous call of this worker changed during this call
+	Aliased bool `json:"aliased,omitempty"`
 }
 
 type memberErr struct{ i int }
@@ -91,19 +118,28 @@ type cancelErr struct {
 func (e *cancelErr) Error() string { return "member " + strconv.Itoa(e.i) + ": " + e.cause.Error() }
 func (e *cancelErr) Unwrap() error { return e.cause }
 
+// canonErr maps the error a group call returned to its canonical number.  The group functions
+// hand the members' errors back as they are, so the dynamic type must be exactly the member's:
+// a wrapped or joined error is none of them (-1, like the "no members" error).
 func canonErr(err error) int64 {
 	if err == nil {
 		return 0
 	}
-	var me *memberErr
-	if errors.As(err, &me) {
-		return int64(me.i) + 1
+	switch e := err.(type) {
+	case *memberErr:
+		return int64(e.i) + 1
+	case *cancelErr:
+		return 1000 + int64(e.i) + 1
+	case *isErr:
+		return 600 + int64(e.i) + 1
 	}
-	var ce *cancelErr
-	if errors.As(err, &ce) {
-		return 1000 + int64(ce.i) + 1
+	switch err {
+	case sharedErrA:
+		return 500
+	case sharedErrB:
+		return 501
 	}
-	return -1
+	return -1 // errors.New("no members returned a response"), or anything that is not a member's error
 }
 func canonMsg(m proto.Message) int64 {
 	if m == nil {
@@ -158,9 +194,29 @@ func snapshot() []gor {
 		if len(f) == 3 {
 			st = strings.Trim(f[2], "[]:")
 		}
+		// A goroutine whose allocation starts a garbage-collection cycle parks on a runtime-internal
+		// semaphore (gcStart waits for worldsema, which this very stack dump holds while the world is
+		// stopped): it shows as "semacquire" with no sync frame on top and continues on its own as
+		// soon as the dump is over.  Only semaphores of package sync (WaitGroup.Wait) are waits on
+		// other goroutines.  (Seen once in ~50 000 runs under load: ExecuteOne judged parked one
+		// step too early, return step observed one step late.)
+		if strings.HasPrefix(st, "semacquire") && !strings.Contains(s, "sync.runtime_Semacquire") {
+			st = "runtime-" + st
+		}
 		out = append(out, gor{id: f[1], status: st, group: isGroup})
 	}
 	return out
+}
+
+func gorsKey(gs []gor) string {
+	var b strings.Builder
+	for _, g := range gs {
+		b.WriteString(g.id)
+		b.WriteByte(':')
+		b.WriteString(g.status)
+		b.WriteByte(';')
+	}
+	return b.String()
 }
 
 // busy: anything but a goroutine parked on a channel, select or sync primitive.  A white-list,
@@ -175,9 +231,12 @@ func busy(g gor) bool {
 	return true
 }
 
-// quiesce waits until no relevant goroutine can run and returns that snapshot.
+// quiesce waits until no relevant goroutine can run and returns that snapshot: two consecutive
+// stop-the-world dumps, with a yield in between, in which every relevant goroutine is parked on a
+// channel / select / sync primitive and which show the same goroutines in the same states.
 func quiesce() ([]gor, bool) {
 	deadline := time.Now().Add(5 * time.Second)
+	prev := ""
 	for k := 0; ; k++ {
 		gs := snapshot()
 		ok := true
@@ -188,7 +247,13 @@ func quiesce() ([]gor, bool) {
 			}
 		}
 		if ok {
-			return gs, true
+			key := "q" + gorsKey(gs)
+			if key == prev {
+				return gs, true
+			}
+			prev = key
+		} else {
+			prev = ""
 		}
 		if time.Now().After(deadline) {
 			return gs, false
@@ -210,7 +275,7 @@ type callResult struct {
 	panic string
 }
 
-func runOne(sp Spec) Obs {
+func runOne(sp Spec) (Obs, []proto.Message) {
 	n := len(sp.Outs)
 	parent, cancelParent := context.WithCancel(context.Background())
 	defer cancelParent()
@@ -220,14 +285,27 @@ func runOne(sp Spec) Obs {
 		pre[g.id] = true
 	}
 
+	pc := sp.Events != nil || sp.Pre
+	events := sp.Events
+	if events == nil {
+		events = sp.Order
+	}
+	if sp.Pre {
+		cancelParent()
+	}
+	cgates := make([]chan struct{}, n)
+	crel := make([]bool, n)
+	gopen := make([]bool, n)
 	gates := make([]chan struct{}, n)
 	ctxs := make([]atomic.Value, n)
 	saw := make([]int64, n)
 	var step atomic.Int64
+	var deadline atomic.Bool
 	var mu sync.Mutex
 	var calls []int64
 	for i := range gates {
 		gates[i] = make(chan struct{})
+		cgates[i] = make(chan struct{})
 		saw[i] = -1
 	}
 	members := make([]group.Member, n)
@@ -238,6 +316,9 @@ func runOne(sp Spec) Obs {
 			calls = append(calls, int64(i))
 			mu.Unlock()
 			ctxs[i].Store(ctx)
+			if _, has := ctx.Deadline(); has {
+				deadline.Store(true)
+			}
 			if sp.Aware[i] {
 				cancelled := false
 				select {
@@ -254,10 +335,31 @@ func runOne(sp Spec) Obs {
 					mu.Lock()
 					saw[i] = step.Load()
 					mu.Unlock()
+					if pc {
+						<-cgates[i]
+					}
 					return nil, &cancelErr{i, ctx.Err()}
 				}
 			} else {
 				<-gates[i]
+			}
+			if sp.Script != nil {
+				var m proto.Message
+				if c := sp.Script[i][0]; c != 0 {
+					m = wrapperspb.Int64(c)
+				}
+				switch c := sp.Script[i][1]; c {
+				case 0:
+					return m, nil
+				case 500:
+					return m, sharedErrA
+				case 501:
+					return m, sharedErrB
+				case 600 + int64(i) + 1:
+					return m, &isErr{i}
+				default:
+					return m, &memberErr{i}
+				}
 			}
 			switch sp.Outs[i] {
 			case outOk:
@@ -319,16 +421,48 @@ func runOne(sp Spec) Obs {
 		}
 	}
 	stuck := false
+	// let the members that saw their context cancelled return, lowest index first
+	flushCancelled := func() {
+		if !pc {
+			return
+		}
+		for {
+			j := -1
+			mu.Lock()
+			for i := range saw {
+				if saw[i] >= 0 && !crel[i] {
+					j = i
+					break
+				}
+			}
+			mu.Unlock()
+			if j < 0 {
+				return
+			}
+			crel[j] = true
+			close(cgates[j])
+			if _, ok := quiesce(); !ok {
+				stuck = true
+			}
+		}
+	}
 	if _, ok := quiesce(); !ok {
 		stuck = true
 	}
+	flushCancelled()
 	observe(0)
-	for k, i := range sp.Order {
+	for k, e := range events {
 		step.Store(int64(k) + 1)
-		close(gates[i])
+		if e < 0 {
+			cancelParent()
+		} else if !gopen[e] {
+			gopen[e] = true
+			close(gates[e])
+		}
 		if _, ok := quiesce(); !ok {
 			stuck = true
 		}
+		flushCancelled()
 		observe(int64(k) + 1)
 	}
 	// every member has been allowed to return: what is still alive?
@@ -350,7 +484,7 @@ func runOne(sp Spec) Obs {
 		time.Sleep(200 * time.Microsecond)
 		l, desc = leak()
 	}
-	observe(int64(len(sp.Order)))
+	observe(int64(len(events)))
 	if result != nil {
 		ob.Kind = result.kind
 		switch result.kind {
@@ -394,7 +528,24 @@ func runOne(sp Spec) Obs {
 	if ob.Calls == nil {
 		ob.Calls = []int64{}
 	}
-	return ob
+	ob.Deadline = deadline.Load()
+	var raw []proto.Message
+	if result != nil && result.kind == "slice" {
+		raw = result.res
+	}
+	return ob, raw
+}
+
+// extraDirects: violations visible without the model, beyond panic / hang / leak.
+func extraDirects(ob Obs, js map[string]any) []vcoq.Direct {
+	var ds []vcoq.Direct
+	if ob.Deadline {
+		ds = append(ds, vcoq.Direct{What: "a member was given a context with a deadline although the caller's context has none: its context can be cancelled before the outcome is decided", Class: "member-deadline", Replay: js})
+	}
+	if ob.Aliased {
+		ds = append(ds, vcoq.Direct{What: "the result slice returned by the previous group call was modified by this call (results of different calls share storage)", Class: "result-aliased", Replay: js})
+	}
+	return ds
 }
 
 // ---- worker subprocess: specs on stdin (one JSON array), observations on stdout ----
@@ -406,8 +557,21 @@ func worker() {
 		os.Exit(2)
 	}
 	out := make([]Obs, len(specs))
+	var prev []proto.Message // the slice the previous call returned, and what it held then
+	var prevSnap []int64
 	for i, sp := range specs {
-		out[i] = runOne(sp)
+		var raw []proto.Message
+		out[i], raw = runOne(sp)
+		for j := range prev {
+			if canonMsg(prev[j]) != prevSnap[j] {
+				out[i].Aliased = true
+			}
+		}
+		prev = raw
+		prevSnap = make([]int64, len(raw))
+		for j := range raw {
+			prevSnap[j] = canonMsg(raw[j])
+		}
 	}
 	w := bufio.NewWriter(os.Stdout)
 	json.NewEncoder(w).Encode(out)
@@ -422,7 +586,7 @@ func runBatches(specs []Spec, batch, par int) ([]Obs, error) {
 	obs := make([]Obs, len(specs))
 	type job struct{ lo, hi int }
 	jobs := make(chan job)
-	errs := make(chan error, par)
+	errs := make(chan error, len(specs)/batch+par+1) // room for every batch: a crashing tree must not block the workers
 	var wg sync.WaitGroup
 	for w := 0; w < par; w++ {
 		wg.Add(1)
@@ -497,6 +661,9 @@ func coqOrder(sp Spec) string {
 	return vcoq.List(it)
 }
 func coqObs(o Obs) string {
+	return vcoq.App("mkRes", coqRet(o), vcoq.ListZ(o.Calls), vcoq.Z(o.Cancel), vcoq.Z(o.RetStep), vcoq.ListZ(o.Saw), vcoq.Z(o.Leak))
+}
+func coqRet(o Obs) string {
 	ret := "RHang"
 	switch o.Kind {
 	case "slice":
@@ -506,7 +673,7 @@ func coqObs(o Obs) string {
 	case "panic":
 		ret = "RPanic"
 	}
-	return vcoq.App("mkRes", ret, vcoq.ListZ(o.Calls), vcoq.Z(o.Cancel), vcoq.Z(o.RetStep), vcoq.ListZ(o.Saw), vcoq.Z(o.Leak))
+	return ret
 }
 
 // ---- generation ----
@@ -567,6 +734,16 @@ func genC17(o *vcoq.Out, r *vcoq.Rand, tier string) error {
 				for s := 0; s <= 7; s++ {
 					add(apiSel{"execute", s}, outs, plain, p)
 				}
+				if n <= 3 { // out-of-range strategy values, deterministically
+					add(apiSel{"execute", -1}, outs, plain, p)
+					add(apiSel{"execute", 8}, outs, plain, p)
+				}
+				if n <= 2 { // ExecuteUpTo with every budget around the range
+					for b := -1; b <= n+1; b++ {
+						add(apiSel{"upto", b}, outs, plain, p)
+						add(apiSel{"upto", b}, outs, awareAll, p)
+					}
+				}
 				// cancellation-aware members: every parallel strategy once more
 				for _, s := range []int{1, 2, 3, 5, 6} {
 					add(apiSel{"execute", s}, outs, awareAll, p)
@@ -613,6 +790,24 @@ func genC17(o *vcoq.Out, r *vcoq.Rand, tier string) error {
 					add(apiSel{"execute", 1 + r.Intn(6)}, outs, make([]bool, 5), p)
 				}
 			}
+		}
+	}
+	// large groups: an early-returning caller leaves n-1 responses behind (a bounded buffer shows here)
+	for _, n := range []int{12, 20, 33} {
+		for _, a := range []apiSel{{"race", 0}, {"fast", 0}, {"execute", 5}, {"execute", 6}, {"execute", 2}} {
+			outs := make([]int, n)
+			order := make([]int, n)
+			for i := range order {
+				order[i] = i
+				if a.arg == 2 && r.Chance(50) {
+					outs[i] = outFail
+				}
+			}
+			for i := n - 1; i > 0; i-- {
+				j := r.Intn(i + 1)
+				order[i], order[j] = order[j], order[i]
+			}
+			add(a, outs, make([]bool, n), order)
 		}
 	}
 	for k := 0; k < nrand; k++ {
@@ -705,6 +900,7 @@ func genC17(o *vcoq.Out, r *vcoq.Rand, tier string) error {
 		if ob.Leak > 0 {
 			o.Directs = append(o.Directs, vcoq.Direct{What: fmt.Sprintf("%d goroutine(s) of pkg/group still blocked after every member returned [%s]", ob.Leak, ob.Stacks), Class: "goroutine-leak", Replay: js})
 		}
+		o.Directs = append(o.Directs, extraDirects(ob, js)...)
 	}
 	// keep the directs list short: the first of each class is enough for a replay
 	seen := map[string]int{}
